@@ -96,9 +96,15 @@ def zoo_oracle(rng, n):
             if name == "SMART":
                 Qp = Q
             before = strip(zoo.canon(est))
+        except Exception:
+            continue
+        try:
             out = est.predict(Q)
             after = strip(zoo.canon(est))
-        except Exception:
+        except Exception as e:
+            if name in ("DeepSup", "DeepUnsup", "SMART", "SimpleARTMAP", "ARTMAP"):
+                fails.append({"signature": f"{name}.predict/raises", "text": f"{name}: predict on training rows raises {type(e).__name__}: {str(e)[:80]}",
+                              "replay": zoo.describe(name, z, X, y, ops, mode, eps, len(ops))})
             continue
         cnt += 1
 
@@ -116,6 +122,19 @@ def zoo_oracle(rng, n):
         outs2 = out2 if isinstance(out2, list) else [out2]
         if any(list(np.asarray(a)[perm]) != list(b) for a, b in zip(outs, outs2)):
             fails.append(rep("predict is not invariant under row permutation", "perm"))
+        # the arg-max label is carried level by level through the layers' maps
+        if name in ("DeepSup", "DeepUnsup", "SMART") and isinstance(out, list) and len(out) == len(est.layers) + 1:
+            try:
+                deepest = list(est.layers[-1].module_a.predict(Q[-1] if isinstance(Q, list) else Q))
+                if [int(v) for v in out[-1]] != [int(v) for v in deepest]:
+                    fails.append(rep("the deepest level is not the A-side arg-max of the last layer", "carried"))
+                for k in range(len(est.layers)):
+                    want = [int(est.layers[k].map[int(v)]) for v in out[k + 1]]
+                    if [int(v) for v in out[k]] != want:
+                        fails.append(rep(f"level {k} is not the image of level {k + 1} under that layer's map: {[int(v) for v in out[k]]} vs {want}", "carried"))
+                        break
+            except KeyError as e:
+                fails.append(rep(f"a predicted label is not a key of the layer map above it ({e})", "carried"))
         # range: labels seen in training
         if name in ("SimpleARTMAP",):
             if not set(int(v) for v in outs[0]) <= set(int(v) for v in np.asarray(y)):
